@@ -75,6 +75,10 @@ func heightsStr(hs []uint64) string {
 
 func init() {
 	register("rpc", func(c *Ctx) {
+		if c.Args["only"] == "page-limit" {
+			rpcPagerLimit(c, 0)
+			return
+		}
 		for i := 0; i < c.N; i++ {
 			rpcHistory(c, i)
 		}
@@ -427,6 +431,14 @@ func rpcHistory(c *Ctx, id int) {
 	c.Hit("history")
 	if id%3 == 0 {
 		rpcManyUnreceived(c, id)
+	}
+	if id%6 == 0 {
+		// every paged getter of every registered service on a ledger whose collections span several pages (s_rpc_pagers.go)
+		rpcPagerHistory(c, id)
+	}
+	if id%30 == 0 {
+		// a collection larger than the page limit: no answer holds more than the limit
+		rpcPagerLimit(c, id)
 	}
 }
 
